@@ -1666,6 +1666,25 @@ func parseOpenSSHPrivateKey(key []byte, decrypt openSSHDecryptFunc) (crypto.Priv
 		return nil, errors.New("ssh: malformed OpenSSH key")
 	}
 
+	pk, err := parseOpenSSHPrivateKeyFields(&pk1)
+	if err != nil {
+		return nil, err
+	}
+	// As OpenSSH does, check that the public key in the envelope is the
+	// public key of the private key.
+	signer, err := NewSignerFromKey(pk)
+	if err != nil {
+		return nil, err
+	}
+	if !bytes.Equal(signer.PublicKey().Marshal(), w.PubKey) {
+		return nil, errors.New("ssh: public key does not match private key")
+	}
+	return pk, nil
+}
+
+// parseOpenSSHPrivateKeyFields parses the key type specific part of the
+// private section of an OpenSSH private key.
+func parseOpenSSHPrivateKeyFields(pk1 *openSSHPrivateKey) (crypto.PrivateKey, error) {
 	switch pk1.Keytype {
 	case KeyAlgoRSA:
 		var key openSSHRSAPrivateKey
@@ -1727,6 +1746,11 @@ func parseOpenSSHPrivateKey(key []byte, decrypt openSSHDecryptFunc) (crypto.Priv
 
 		pk := ed25519.PrivateKey(make([]byte, ed25519.PrivateKeySize))
 		copy(pk, key.Priv)
+		// The private key is the seed followed by the public key, which is
+		// also stored on its own: all of them have to agree.
+		if !bytes.Equal(ed25519.NewKeyFromSeed(pk.Seed()), pk) || !bytes.Equal(key.Pub, pk[ed25519.SeedSize:]) {
+			return nil, errors.New("ssh: public key does not match private key")
+		}
 		return &pk, nil
 	case KeyAlgoECDSA256, KeyAlgoECDSA384, KeyAlgoECDSA521:
 		var key openSSHECDSAPrivateKey
